@@ -1,6 +1,8 @@
-(* Props/C15.v — Type information only rejects; it never changes meaning (instruction level). *)
+(* Props/C15.v — Type information only rejects; it never changes meaning.
+   First the instruction-level lemmas (BC/ModeProofs.v), then the whole-expression theorems on the
+   reference semantics (Sem/ModeAgree.v); compiled code is tied to Sem.eval by compile_correct (C01). *)
 From Coq Require Import ZArith Bool List String.
-Require Import X.Base.Num X.Base.Value X.Syn.Ast X.Sem.Prim X.Sem.Sem X.BC.ModeProofs.
+Require Import X.Base.Num X.Base.Value X.Syn.Ast X.Sem.Prim X.Sem.Sem X.BC.ModeProofs X.Sem.ModeAgree.
 Import ListNotations.
 Local Open Scope Z_scope.
 
@@ -48,8 +50,150 @@ Theorem C15_env_shape_struct_map :
 Proof. exact fetch_struct_map. Qed.
 Print Assumptions C15_env_shape_struct_map.
 
-(* The whole-expression statement of the property ("all variants that succeed return equal results")
-   is NOT a theorem of this development: it needs the hypothesis that the annotations are the
-   checker's and an induction relating a typed and an untyped tree.  It is decided on the
-   implementation by the pairwise comparison of the eight variants (harness c15), and each tree's
-   compiled code is tied to the reference semantics by compile_correct (C01). *)
+(* ================================================================== whole expressions *)
+(* The compilation variants of one source differ, in the model, only in (a) the kind annotations
+   (read by int_const for literals and by both_kind at ==), (b) the fast flag of function calls,
+   (c) c_mapenv and the shape of the environment value.  same_shape = equal up to (a) and (b).
+   ok fe env e = the decidable carve-out `wf e` (every literal is plain, except inside a call argument
+   that is a literal-only arithmetic tree retyped as a whole to one kind) + for each such argument the
+   typing fact about the callee (site_ok: the parameter at that position has that kind).
+   "Equal results" = equal value AND equal run state (call trace with arguments, allocation count). *)
+
+(* two variants of one source on the same environment: whenever both succeed, same value, same state *)
+Theorem C15_modes_agree :
+  forall fe cfg env ctx s e1 e2 v1 s1 v2 s2,
+  fast_sound fe -> same_shape e1 e2 -> ok fe env e1 -> ok fe env e2 ->
+  eval fe cfg env ctx e1 s = Done v1 s1 -> eval fe cfg env ctx e2 s = Done v2 s2 -> v1 = v2 /\ s1 = s2.
+Proof. exact modes_agree. Qed.
+Print Assumptions C15_modes_agree.
+
+(* the general form: the two sides may also differ in configuration and environment value, as long as
+   identifiers and callables resolve alike on both *)
+Theorem C15_modes_agree_gen :
+  forall fe cfg1 cfg2 env1 env2,
+  c_limit cfg1 = c_limit cfg2 ->
+  (forall name ns v1 v2, fetch_ident cfg1 env1 name ns = Ok v1 -> fetch_ident cfg2 env2 name ns = Ok v2 -> v1 = v2) ->
+  (forall name id1 id2, fetch_fn fe env1 name = Ok id1 -> fetch_fn fe env2 name = Ok id2 -> id1 = id2) ->
+  (forall name id args, fetch_fn fe env1 name = Ok id -> fetch_fn fe env2 name = Ok id ->
+     fn_run fe id env1 args = fn_run fe id env2 args) ->
+  fast_sound fe ->
+  forall e1 e2 ctx s v1 s1 v2 s2,
+  same_shape e1 e2 -> ok fe env1 e1 -> ok fe env2 e2 ->
+  eval fe cfg1 env1 ctx e1 s = Done v1 s1 -> eval fe cfg2 env2 ctx e2 s = Done v2 s2 -> v1 = v2 /\ s1 = s2.
+Proof. exact modes_agree_gen. Qed.
+Print Assumptions C15_modes_agree_gen.
+
+(* Env(map[string]interface{}): OpFetchMap against OpFetch, on top of differing annotations *)
+Theorem C15_modes_agree_mapenv :
+  forall fe limit m ctx s e1 e2 v1 s1 v2 s2,
+  let env := VMap TString TIface m in
+  fast_sound fe -> same_shape e1 e2 -> ok fe env e1 -> ok fe env e2 ->
+  eval fe (mkCfg true limit) env ctx e1 s = Done v1 s1 ->
+  eval fe (mkCfg false limit) env ctx e2 s = Done v2 s2 -> v1 = v2 /\ s1 = s2.
+Proof. exact modes_agree_mapenv. Qed.
+Print Assumptions C15_modes_agree_mapenv.
+
+(* the environment as a struct value against a pointer to it *)
+Theorem C15_modes_agree_struct_ptr :
+  forall fe cfg1 cfg2 n fields ctx s e1 e2 v1 s1 v2 s2,
+  let env1 := VStruct n false fields in
+  let env2 := VStruct n true fields in
+  c_limit cfg1 = c_limit cfg2 -> c_mapenv cfg1 = c_mapenv cfg2 ->
+  (forall name id, fn_method fe n false name = Some id -> fn_method fe n true name = Some id) ->
+  (forall name id, fn_method fe n true name = Some id -> assoc_str name fields = None) ->
+  (forall id args, fn_run fe id env1 args = fn_run fe id env2 args) ->
+  fast_sound fe -> same_shape e1 e2 -> ok fe env1 e1 -> ok fe env2 e2 ->
+  eval fe cfg1 env1 ctx e1 s = Done v1 s1 -> eval fe cfg2 env2 ctx e2 s = Done v2 s2 -> v1 = v2 /\ s1 = s2.
+Proof. exact modes_agree_struct_ptr. Qed.
+Print Assumptions C15_modes_agree_struct_ptr.
+
+(* the environment as a struct against a map[string]interface{} with the same members *)
+Theorem C15_modes_agree_struct_map :
+  forall fe cfg1 cfg2 n p fields ctx s e1 e2 v1 s1 v2 s2,
+  let env1 := VStruct n p fields in
+  let env2 := VMap TString TIface (as_map fields) in
+  c_limit cfg1 = c_limit cfg2 ->
+  (forall name id, fn_method fe n p name = Some id -> assoc_str name fields = None) ->
+  (forall name id tf args, assoc_str name fields = Some (VFunc id tf) -> fn_run fe id env1 args = fn_run fe id env2 args) ->
+  fast_sound fe -> same_shape e1 e2 -> ok fe env1 e1 -> ok fe env2 e2 ->
+  eval fe cfg1 env1 ctx e1 s = Done v1 s1 -> eval fe cfg2 env2 ctx e2 s = Done v2 s2 -> v1 = v2 /\ s1 = s2.
+Proof. exact modes_agree_struct_map. Qed.
+Print Assumptions C15_modes_agree_struct_map.
+
+(* a member of the environment reads the same from a struct, a pointer to it and the map *)
+Theorem C15_ident_env_shapes :
+  forall cfg n p fields name ns v,
+  c_mapenv cfg = false ->
+  fetch_ident cfg (VStruct n p fields) name ns = Ok v ->
+  fetch_ident cfg (VStruct n (negb p) fields) name ns = Ok v /\
+  (forall b limit, fetch_ident (mkCfg b limit) (VMap TString TIface (as_map fields)) name ns = Ok v).
+Proof. exact ident_env_shapes. Qed.
+Print Assumptions C15_ident_env_shapes.
+
+(* ---- the statement for the trees the checker REALLY produces is false (finding C15-arg-retype-mixed):
+   checkFunc / setTypeForIntegers retypes the integer literals below + - * / of a call argument even
+   when other leaves are not literals (ok_full allows such mixed arguments): `Half(I / 2 + Y)` with
+   Env{I int = 1; Y float64 = 0; Half func(float64) float64} is 0.25 with the declared type
+   (1 / 2.0 + 0.0) and 0 without it (1 / 2 = 0 in int); both calls succeed.  Replayed on the library. *)
+Definition C15_modes_agree_full_statement : Prop :=
+  forall fe cfg env ctx s e1 e2 v1 s1 v2 s2,
+  fast_sound fe -> same_shape e1 e2 -> ok_full fe env e1 -> ok_full fe env e2 ->
+  eval fe cfg env ctx e1 s = Done v1 s1 -> eval fe cfg env ctx e2 s = Done v2 s2 -> v1 = v2 /\ s1 = s2.
+
+Theorem C15_modes_agree_full_statement_refuted : ~ C15_modes_agree_full_statement.
+Proof. exact modes_agree_refuted. Qed.
+Print Assumptions C15_modes_agree_full_statement_refuted.
+
+(* the full statement under the DECIDABLE carve-out wf (retyped arguments are literal-only trees);
+   ok fe env e <-> ok_full fe env e /\ wf e = true *)
+Theorem C15_modes_agree_partial :
+  forall fe cfg env ctx s e1 e2 v1 s1 v2 s2,
+  fast_sound fe -> same_shape e1 e2 -> ok_full fe env e1 -> ok_full fe env e2 ->
+  wf e1 = true -> wf e2 = true ->
+  eval fe cfg env ctx e1 s = Done v1 s1 -> eval fe cfg env ctx e2 s = Done v2 s2 -> v1 = v2 /\ s1 = s2.
+Proof. exact modes_agree_partial. Qed.
+Print Assumptions C15_modes_agree_partial.
+
+Theorem C15_ok_is_ok_full_and_wf :
+  forall fe env e, ok fe env e <-> (ok_full fe env e /\ wf e = true).
+Proof. exact ok_iff_ok_full_wf. Qed.
+
+(* ---- non-vacuity: all([1, 2], # == 1 || Half(1 + 2) > 1.0) && Fast(I, "a") == 2 in two variants
+   (int-annotated literals, OpEqualInt, OpCallFast / unannotated, generic; the argument of Half retyped
+   to float64 in both) on the harness universe: all hypotheses hold, both runs succeed, equal results *)
+Example C15_modes_agree_nonvacuous :
+  fast_sound fe_demo /\ same_shape (ex_tree true) (ex_tree false) /\ ex_tree true <> ex_tree false /\
+  ok fe_demo env_demo (ex_tree true) /\ ok fe_demo env_demo (ex_tree false) /\
+  sites (ex_tree true) = [mkSite false "Half" 0 KF64] /\
+  eval fe_demo cfg_demo env_demo [] (ex_tree true) rs0 = ex_result /\
+  eval fe_demo cfg_demo env_demo [] (ex_tree false) rs0 = ex_result /\
+  (exists st, ex_result = Done (VBool true) st /\ r_mem st = 2 /\ map fst (r_trace st) = ["Half"%string; "Fast"%string]).
+Proof.
+  split; [exact (u_fenv_fast_sound [] [])|]. split; [exact ex_tree_same|]. split; [exact ex_tree_differ|].
+  split; [exact (ex_tree_ok true)|]. split; [exact (ex_tree_ok false)|]. split; [reflexivity|].
+  split; [exact (ex_tree_runs true)|]. split; [exact (ex_tree_runs false)|].
+  eexists. split; [reflexivity|]. split; reflexivity.
+Qed.
+
+(* the hypotheses of the environment-shape theorems hold for the same expression on Env, *Env and the map *)
+Example C15_env_shapes_nonvacuous :
+  (forall name id, fn_method fe_demo "Env" false name = Some id -> fn_method fe_demo "Env" true name = Some id) /\
+  (forall p name id, fn_method fe_demo "Env" p name = Some id -> assoc_str name fields_demo = None) /\
+  (forall id args, fn_run fe_demo id env_demo args = fn_run fe_demo id env_demo_ptr args) /\
+  (forall name id tf args, assoc_str name fields_demo = Some (VFunc id tf) ->
+     fn_run fe_demo id env_demo args = fn_run fe_demo id env_demo_map args) /\
+  ok fe_demo env_demo_ptr (ex_tree true) /\ ok fe_demo env_demo_map (ex_tree false) /\
+  eval fe_demo cfg_demo env_demo_ptr [] (ex_tree true) rs0 = ex_result /\
+  eval fe_demo (mkCfg true 1000) env_demo_map [] (ex_tree false) rs0 = ex_result /\
+  eval fe_demo (mkCfg false 1000) env_demo_map [] (ex_tree true) rs0 = ex_result.
+Proof.
+  split; [exact demo_methods_sub|]. split; [exact demo_methods_disjoint|].
+  split; [intros id args; reflexivity|]. split; [exact demo_run_fields|].
+  split; [exact (ex_tree_ok_env _ true (or_introl eq_refl))|].
+  split; [exact (ex_tree_ok_env _ false (or_intror eq_refl))|].
+  split; [exact (ex_tree_runs_ptr true)|]. split; [exact (ex_tree_runs_map false true)|exact (ex_tree_runs_map true false)].
+Qed.
+
+(* What is NOT proved here: that the checker model (Ty/Checker.v) establishes ok_full / site_ok for the
+   trees it returns (static typing of callees is C03's domain), and the transfer to compiled code (C01's
+   compile_correct, per tree).  The implementation is additionally compared pairwise by harness c15. *)
